@@ -127,6 +127,7 @@ inductive Op
   | world (t : Ty) (res : List Res)
   | sub (t : Ty) (names : List String)
   | pushall
+  | reconnect
 
 def changedNames (old new : List Res) : List String :=
   (new.filter (fun r => get old r.1 != some r.2)).map (·.1) ++
@@ -147,20 +148,25 @@ def stepSub (y : Sys) (t : Ty) (rawNames : List String) : Sys :=
         | none => (y0, [])
       else (y0, [])
     else
-      let nonce := if sc.subscribed then sc.nonce else ""
+      -- a reconnecting client presents the nonce it retained from the previous stream
       let y0 := { y with sc := y.sc.set t { sc with held := heldS, subscribed := true, sub := nm } }
-      match processSotw y0.genReq y0.ssrv { ty := t, names := nm, nonce := nonce, err := none } with
+      match processSotw y0.genReq y0.ssrv { ty := t, names := nm, nonce := sc.nonce, err := none } with
       | some (v, ws) => ({ y0 with ssrv := v }, ws)
       | none => (y0, [])
   -- delta client
   let dc := y1.dc t
   let (y2, dw) :=
     if !dc.subscribed then
-      if nm.isEmpty && !t.wildcard then (y1, [])
+      if nm.isEmpty && !t.wildcard then
+        -- nothing wanted of this type any more
+        ({ y1 with dc := y1.dc.set t { dc with held := [] } }, [])
       else
         let sub := if nm.isEmpty then ["*"] else nm
-        let y0 := { y1 with dc := y1.dc.set t { dc with subscribed := true, sub := nm } }
-        match processDelta y0.genReq y0.dsrv { ty := t, sub := sub, unsub := [], init := [], nonce := "", err := none } with
+        -- a named resource the client no longer wants is dropped before it reports what it retains
+        let heldD := if t.wildcard then dc.held else dc.held.filter (fun x => nm.contains x.1)
+        let y0 := { y1 with dc := y1.dc.set t { dc with held := heldD, subscribed := true, sub := nm } }
+        -- first request on a stream: report everything retained (initial_resource_versions)
+        match processDelta y0.genReq y0.dsrv { ty := t, sub := sub, unsub := [], init := sortNames (names heldD), nonce := "", err := none } with
         | some (v, ws) => ({ y0 with dsrv := v }, ws)
         | none => (y0, [])
     else
@@ -185,6 +191,13 @@ def step (y : Sys) : Op → Sys
              world := fun t' => if t' = t && t = .eds then res else y.world t',
              changed := fun t' => if t' = t then y.changed t ++ ch else y.changed t' }
   | .sub t names => stepSub y t names
+  | .reconnect =>
+    -- both streams break; the server forgets everything about them (fresh watch tables, possibly
+    -- another instance); the clients keep what they hold, their nonces and subscriptions and will
+    -- re-send the latter. The new connection starts from the latest published snapshot.
+    { y with world := y.pending, ssrv := { ctr := y.ssrv.ctr }, dsrv := { ctr := y.dsrv.ctr },
+             sc := fun t => { y.sc t with subscribed := false },
+             dc := fun t => { y.dc t with subscribed := false } }
   | .pushall =>
     let y := { y with world := y.pending }
     let (sv, sw) := pushConnSotw y.genReq y.ssrv
